@@ -195,6 +195,91 @@ def defs_live(fx, sc):
     return fcs, defs, stubs, notes
 
 
+def defs_store(mod, modname, fns, strategy_name):
+    """the CLI's path: every trace goes through CallTraceRow.from_trace / to_trace (so the function is looked up again by
+    module and qualname), then build_module_stubs_from_traces.  Ground truth = the functions `mod` contains NOW, found by
+    the harness's own getattr_static walk."""
+    from monkeytype.encoding import CallTraceRow
+    from monkeytype.stubs import (ExistingAnnotationStrategy, build_module_stubs, build_module_stubs_from_traces,
+                                  get_updated_definition)
+    from monkeytype.tracing import CallTrace
+    strategy = ExistingAnnotationStrategy[strategy_name]
+    notes, rt_traces, by_qual = [], [], {}
+    for fn in fns:
+        func = resolve(mod, fn["path"], fn["name"])
+        by_qual[".".join(fn["path"] + [fn["name"]])] = (fn, func)
+        for tr in fn["traces"]:
+            t = CallTrace(func, {k: type_by_name(v, mod) for k, v in tr["args"].items()},
+                          type_by_name(tr["ret"], mod) if tr["ret"] else None,
+                          type_by_name(tr["yield"], mod) if tr["yield"] else None)
+            rt_traces.append(CallTraceRow.from_trace(t).to_trace())
+    index = {}
+    for t in rt_traces:
+        index.setdefault(t.func, set()).add(t)
+    fcs, defs = [], []
+    for func, traces in index.items():
+        fn, real = by_qual[func.__qualname__]
+        d = get_updated_definition(func, traces, 0, None, strategy)
+        defs.append(d)
+        gt_params = rf.gt_params_of_signature(inspect.signature(real))
+        if [tuple(x) for x in fn["gt_params"]] != gt_params:
+            raise RuntimeError(f"generator and inspect.signature disagree on {real.__qualname__}")
+        fcs.append({"qual": fn["path"] + [fn["name"]], "kind": fn["gt_kind"], "async": fn["flavour"] == "coroutine",
+                    "gt_params": gt_params, "updated": True, "traced": sorted({k for t in traces for k in t.arg_types}),
+                    "strategy": strategy_name, "defn": d, "flavour": fn["flavour"]})
+    stubs = build_module_stubs(defs)
+    ref_stubs = build_module_stubs_from_traces(rt_traces, 0, strategy)
+
+    def safe_items(stub):
+        try:
+            return rf.items_of_text(stub.render())[0]
+        except Exception as e:
+            return f"?render raised {type(e).__name__}"
+
+    for m, st in stubs.items():
+        if m not in ref_stubs or safe_items(ref_stubs[m]) != safe_items(st):
+            notes.append(f"MISMATCH: build_module_stubs_from_traces renders module {m} differently from build_module_stubs over the same definitions")
+    return fcs, defs, stubs, ref_stubs, notes
+
+
+def cases_of_history(fx, sc):
+    """version 1 imported and stubbed, the file rewritten with version 2, importlib.reload, stubbed again — one process"""
+    name = sc["module"]
+    out = []
+    path = os.path.join(fx.work, name + ".py")
+    mod = fx.load(name, sc["v1"]["source"])
+    fcs, _defs, stubs, _ref, notes = defs_store(mod, name, sc["v1"]["traced"], sc["strategy"])
+    for c in module_cases(fcs, stubs, sc, notes):
+        c["history_version"] = 1
+        out.append(c)
+    with open(path, "w") as f:
+        f.write(sc["v2"]["source"])
+    importlib.invalidate_caches()
+    mod = importlib.reload(mod)
+    fx.loaded[name] = mod
+    fcs, _defs, stubs, _ref, notes = defs_store(mod, name, sc["v2"]["traced"], sc["strategy"])
+    for c in module_cases(fcs, stubs, sc, notes):
+        c["history_version"] = 2
+        out.append(c)
+    return out
+
+
+def fresh_parse_terms(work, scs):
+    """what a process that never saw version 1 shows for version 2 of each history module (one subprocess for all)"""
+    import subprocess
+    entries = [{"module": sc["module"], "source": sc["v2"]["source"], "traced": sc["v2"]["traced"],
+                "strategy": sc["strategy"]} for sc in scs]
+    if not entries:
+        return {}
+    pin, pout = os.path.join(work, "fresh_in.json"), os.path.join(work, "fresh_out.json")
+    json.dump(entries, open(pin, "w"))
+    p = subprocess.run([common.PY, "-m", "harness.stubrender_fresh", pin, pout], env=common.sub_env(), cwd=common.VERIF,
+                       capture_output=True, text=True, timeout=600)
+    if p.returncode != 0 or not os.path.exists(pout):
+        raise RuntimeError("fresh-process side of the history stream failed: " + p.stderr[-800:])
+    return json.load(open(pout))
+
+
 def defs_direct(sc):
     """scenario kind "direct": FunctionDefinition objects built by hand around inspect.Signature objects"""
     from monkeytype.stubs import FunctionDefinition, FunctionKind, build_module_stubs
@@ -241,10 +326,16 @@ def coq_fcase(fc):
 
 def cases_of_scenario(fx, sc):
     """-> list of dict(term, info...) — one mcase per module of the returned stubs"""
+    if sc["kind"] == "history":
+        return cases_of_history(fx, sc)
     if sc["kind"] == "live":
         fcs, defs, stubs, notes = defs_live(fx, sc)
     else:
         fcs, defs, stubs, notes = defs_direct(sc)
+    return module_cases(fcs, stubs, sc, notes)
+
+
+def module_cases(fcs, stubs, sc, notes):
     all_term = coq_list(coq_fcase(fc) for fc in fcs)
     out = []
     for modname, stub in stubs.items():
@@ -267,7 +358,7 @@ def cases_of_scenario(fx, sc):
             coq_text(text), coq_list(toks), parse_term)
         mine = [fc for fc in fcs if fc["defn"].module == modname]
         out.append({"term": term, "scenario": sc, "module": modname, "text": full, "syntax_error": err,
-                    "parsed": parse_plain, "funcs": mine, "notes": notes})
+                    "parsed": parse_plain, "funcs": mine, "notes": notes, "parse_term": parse_term})
     if not stubs:
         out.append({"term": None, "scenario": sc, "module": None, "text": "", "syntax_error": None, "parsed": [],
                     "funcs": [], "notes": notes})
@@ -329,6 +420,17 @@ def live_scenarios(rnd, tier, tag):
                 scs.append({"kind": "live", "modules": [pm, m], "traced": sub, "strategy": rnd.choice(STRATEGIES),
                             "real_calls": False})
         prev = (m, fns)
+    return scs
+
+
+def history_scenarios(rnd, tier, tag):
+    scs = []
+    for i in range(8 if tier == "quick" else 80):
+        name = f"c12hist_{tag}_{i}"
+        v1, v2 = gen.history_specs(rnd)
+        scs.append({"kind": "history", "module": name, "strategy": rnd.choice(STRATEGIES),
+                    "v1": {"source": gen.module_source(v1), "traced": [fn_record(name, s, rnd) for s in v1]},
+                    "v2": {"source": gen.module_source(v2), "traced": [fn_record(name, s, rnd) for s in v2]}})
     return scs
 
 
@@ -456,18 +558,44 @@ def evaluate(ctx, cases, name):
     return common.parse_bad(outs)
 
 
+def evaluate_h(ctx, hcases, scs, name):
+    """second stubs of the history scenarios, each with what a fresh process shows (hcase, verdict_h)"""
+    if not hcases:
+        return []
+    fresh = fresh_parse_terms(ctx.work, scs)
+    for c in hcases:
+        c["fresh_term"] = fresh.get(c["module"], "None")
+    terms = [f"(HCase {c['term']} {c['fresh_term']})" for c in hcases]
+    outs = common.run_coq_shards(ctx.work, name, HEADER, terms, "hcase", "bad verdict_h 0 cases", shard_size=30)
+    return common.parse_bad(outs)
+
+
+def describe_history(c):
+    msg = (f"history: {c['module']} stubbed through the store path (CallTraceRow.from_trace -> to_trace -> "
+           f"build_module_stubs_from_traces), its source rewritten (v1 -> v2, both in the replay file) and "
+           f"importlib.reload()ed, stubbed again in the same process; the second stub: {describe_failure(c)}")
+    if c.get("parse_term") != c.get("fresh_term"):
+        msg += "; a fresh process that only ever saw v2 shows a different stub for the same traces"
+    return msg
+
+
 def run(ctx):
     rnd = random.Random(ctx.seed * 1000 + 12)
     fx = Fixtures(ctx.work)
     try:
         scs = live_scenarios(rnd, ctx.tier, ctx.seed) + direct_scenarios(rnd, ctx.tier)
+        hscs = history_scenarios(rnd, ctx.tier, ctx.seed)
+        scs += hscs
         cases, notes = [], []
         for sc in scs:
             for c in cases_of_scenario(fx, sc):
                 notes += c["notes"]
                 if c["term"] is not None:
                     cases.append(c)
+        hcases = [c for c in cases if c.get("history_version") == 2]
+        cases = [c for c in cases if c.get("history_version") != 2]
         bad = evaluate(ctx, cases, "c12")
+        hbad = evaluate_h(ctx, hcases, hscs, "c12h")
         gterms, ginfos = grammar_cases(rnd, ctx.tier)
         gouts = common.run_coq_shards(ctx.work, "c12g", HEADER, gterms, "gcase", "bad verdict_g 0 cases")
         gbad = common.parse_bad(gouts)
@@ -489,6 +617,16 @@ def run(ctx):
             rec["what"] = ("harness produced a malformed case" if v == 3 else
                            "model and implementation disagree on text / tokens / parse / placement") + f" for module {c['module']}"
             mismatches.append(rec)
+    for i, code in hbad:
+        c = hcases[i]
+        rec = {"scenario": c["scenario"], "module": c["module"], "stub_text": c["text"][:4000], "verdict": code,
+               "syntax_error": c["syntax_error"]}
+        if code == 2:
+            rec["what"] = describe_history(c)
+            failures.append(rec)
+        else:
+            rec["what"] = f"history: model and implementation disagree on the second stub of {c['module']}"
+            mismatches.append(rec)
     for i, code in gbad:
         mismatches.append({"what": f"reparse and Python's parser disagree on the parameter list {ginfos[i]['text']!r}",
                            "grammar_case": ginfos[i]})
@@ -496,11 +634,16 @@ def run(ctx):
         if n.startswith("MISMATCH"):
             mismatches.append({"what": n})
     # failures of the known class first need not hide others: order so that a non-finding failure is reported first
-    failures.sort(key=lambda r: (1 if r.get("finding") else 0, len(r["scenario"].get("traced", r["scenario"].get("defs", [])))))
+    failures.sort(key=lambda r: (1 if r.get("finding") else 0,
+                                 len(r["scenario"].get("traced", r["scenario"].get("defs", r["scenario"].get("v2", {}).get("traced", []))))))
+    cases = cases + hcases
 
     dist = {"scenarios_live": sum(1 for s in scs if s["kind"] == "live"),
             "scenarios_direct": sum(1 for s in scs if s["kind"] == "direct"),
             "real_calls_scenarios": sum(1 for s in scs if s.get("real_calls")),
+            "scenarios_history": len(hscs), "history_second_stubs": len(hcases),
+            "history_functions_changed": sum(1 for sc in hscs for a, b in zip(sc["v1"]["traced"], sc["v2"]["traced"])
+                                             if (a["gt_kind"], a["flavour"], a["gt_params"]) != (b["gt_kind"], b["flavour"], b["gt_params"])),
             "module_cases": len(cases), "grammar_cases": len(gterms),
             "grammar_python_accepts": sum(1 for g in ginfos if g["python"] != "None"),
             "functions": 0, "wrapped_signatures": 0, "syntax_errors": sum(1 for c in cases if c["syntax_error"]),
@@ -540,7 +683,10 @@ def run(ctx):
                 "calls under trace_calls), through get_updated_definition and build_module_stubs; hand-built "
                 "FunctionDefinitions over every kind sequence up to length 4, random ones up to 8 and an ill-formed stream "
                 "(__validate_parameters__=False); parameter-list token sequences (exhaustive to length 3 over 9 entry "
-                "shapes, random to 8) against ast.parse.  Non-trivial: a module case with a parameterised function / a "
+                "shapes, random to 8) against ast.parse; histories: a module stubbed through the store path "
+                "(CallTraceRow.from_trace/to_trace), rewritten with other kinds / flavours / parameter lists, reloaded "
+                "and stubbed again in the same process, second stub against the functions as they are now and against "
+                "a fresh process.  Non-trivial: a module case with a parameterised function / a "
                 "grammar case of >= 2 entries; distinct by hash of the reified case",
         "samples": samples, "distribution": dist, "failures": failures, "mismatches": mismatches,
         "relation": "lines_text/lines_tokens/parse_module (render_module (build_module_stubs ds)) = real text/tokenize/ast.parse",
@@ -556,19 +702,30 @@ def replay(ctx, payload):
     fx = Fixtures(ctx.work)
     try:
         cases = [c for c in cases_of_scenario(fx, sc) if c["term"] is not None]
+        hcases = [c for c in cases if c.get("history_version") == 2]
+        cases = [c for c in cases if c.get("history_version") != 2]
         bad = dict(evaluate(ctx, cases, "c12replay"))
+        hbad = dict(evaluate_h(ctx, hcases, [sc], "c12replayh"))
+        for j, c in enumerate(hcases):
+            bad[len(cases) + j] = hbad.get(j, 0)
+        cases = cases + hcases
     finally:
         fx.close()
     rc = 0
     for i, c in enumerate(cases):
         code = bad.get(i, 0)
+        if c.get("history_version"):
+            print(f"=== history, version {c['history_version']} of {c['module']}; source:")
+            print(sc["v%d" % c["history_version"]]["source"])
+            if c.get("history_version") == 2:
+                print("--- a fresh process shows the same items: %s" % (c.get("parse_term") == c.get("fresh_term")))
         print(f"--- module {c['module']}: implementation output (ModuleStub.render()) ---")
         print(c["text"])
         print(f"--- ast.parse: {c['syntax_error'] or 'ok'}")
         print(f"--- verdict (model vs implementation, property predicate; evaluated in Coq): {code % 10}"
               f"{' [class kf_nested_class]' if code >= 10 else ''}")
         if code % 10 == 2:
-            print("property predicate FALSE: " + describe_failure(c))
+            print("property predicate FALSE: " + (describe_history(c) if c.get("history_version") == 2 else describe_failure(c)))
             rc = 1
         elif code % 10 == 1:
             print("model and implementation DISAGREE")
